@@ -239,4 +239,421 @@ Proof.
   - intros Hd. destruct (Heq Hd) as (A & B). unfold w1 in *. rewrite !vertex_clr1 in *. rewrite !Hv. auto.
 Qed.
 
+(** ** the 2-sew merges the vertices at the two ends of the edge *)
+Definition set2 (w : store) (l r : N) : store := upd (upd w (XBeta 2 l) (VN r)) (XBeta 2 r) (VN l).
+Lemma vertex_set2 w l r d : vertex (set2 w l r) d = vertex w d.
+Proof. reflexivity. Qed.
+
+Lemma run_two_link_core E l r c w cnt o w' cnt' :
+  run E (two_link_core l r) c w cnt = (o, w', cnt') ->
+  match o with Done _ => w' = set2 w l r /\ cnt' = cnt | _ => True end.
+Proof.
+  unfold two_link_core. cbn [run bind rdB wrB]. intros Hr.
+  destruct (e_dom E (XBeta 2 l)); [|injection Hr as <- <- <-; exact I].
+  destruct (negb (asN (w (XBeta 2 l)) =? 0)); cbn [run] in Hr; [injection Hr as <- <- <-; exact I|].
+  destruct (e_dom E (XBeta 2 r)); [|injection Hr as <- <- <-; exact I].
+  destruct (negb (asN (w (XBeta 2 r)) =? 0)); cbn [run] in Hr; [injection Hr as <- <- <-; exact I|].
+  cbn [run bind wrB] in Hr. destruct (e_dom E (XBeta 2 l)); [|injection Hr as <- <- <-; exact I].
+  cbn [run] in Hr. destruct (e_dom E (XBeta 2 r)); injection Hr as <- <- <-; auto.
+Qed.
+
+(* what one merge does to the coordinate slots, as a relation between two stores *)
+Definition merge_effect (w w' : store) (i1 i2 i' : N) : Prop :=
+  (forall d, d <> i1 -> d <> i2 -> d <> i' -> vertex w' d = vertex w d) /\
+  (i1 <> i2 -> merged (vertex w i1) (vertex w i2) <> None /\ vertex w' i' = merged (vertex w i1) (vertex w i2) /\
+               (i1 <> i' -> vertex w' i1 = None) /\ (i2 <> i' -> vertex w' i2 = None)) /\
+  (i1 = i2 -> vertex w' i' = vertex w i1 /\ (i1 <> i' -> vertex w' i1 = None)).
+
+Lemma attrs_keep_vertices E (p : prog unit) c w cnt w' cnt' :
+  writes_in Sattr p -> run E p c w cnt = (Done tt, w', cnt') -> forall d, vertex w' d = vertex w d.
+Proof. intros Hw Hr d. unfold vertex. f_equal. eapply writes_in_run; [exact Hw|exact Hr|]. cbn. auto. Qed.
+
+(* one end only: the left dart is 1-free, the right one is not (the vertex of [l] meets the one at the end of [r]) *)
+Theorem two_sew_vertex_data_left E n ks l r c w cnt w' cnt' :
+  dom_ok E n -> wf2 n w -> okd n w l -> okd n w r -> l <> r -> beta w 1 l = 0 -> beta w 1 r <> 0 ->
+  run E (two_sew n ks l r) c w cnt = (Done tt, w', cnt') ->
+  exists i1 i2 i',
+    is_vid n w l i1 /\ is_vid n w (beta w 1 r) i2 /\ is_vid n (set2 w l r) l i' /\ merge_effect w w' i1 i2 i'.
+Proof.
+  intros Hdom W Ol Or Hlr Zl Nr Hr. pose proof Ol as (Hl0 & Hln & Hlu). pose proof Or as (Hr0 & Hrn & Hru).
+  unfold two_sew in Hr. rewrite !run_rdB in Hr by (apply Hdom; [lia|assumption]).
+  rewrite Zl in Hr. change (0 =? 0) with true in Hr.
+  destruct (N.eqb_spec (beta w 1 r) 0) as [Z|_]; [contradiction|].
+  assert (Hbn : beta w 1 r < n) by (apply W; [lia|exact Hrn]).
+  destruct (orbit2_spec n w PVertex l W eq_refl Hl0 Hln) as (L1 & E1 & _).
+  destruct (vertex_id_min E n c w l cnt L1 Hdom W Hl0 Hln E1) as (i1 & R1 & M1).
+  rewrite run_bind, R1 in Hr.
+  destruct (orbit2_spec n w PVertex (beta w 1 r) W eq_refl Nr Hbn) as (L2 & E2 & _).
+  destruct (vertex_id_min E n c w (beta w 1 r) cnt L2 Hdom W Nr Hbn E2) as (i2 & R2 & M2).
+  rewrite run_bind, R2 in Hr. rewrite run_bind in Hr.
+  destruct (run E (two_link_core l r) c w cnt) as [[o1 w1] cnt1] eqn:Hc.
+  pose proof (triple_two_link_core E n l r c w cnt _ _ _ (conj W (conj Ol (conj Or Hlr))) Hc) as W1.
+  apply run_two_link_core in Hc. destruct o1 as [[]|e| |q]; try discriminate Hr.
+  destruct Hc as (-> & ->).
+  destruct (orbit2_spec n (set2 w l r) PVertex l W1 eq_refl Hl0 Hln) as (L' & E' & _).
+  destruct (vertex_id_min E n c (set2 w l r) l cnt L' Hdom W1 Hl0 Hln E') as (i' & R' & M').
+  rewrite run_bind, R' in Hr.
+  destruct (orbit2_spec n (set2 w l r) PEdge l W1 eq_refl Hl0 Hln) as (Le & Ee & _).
+  destruct (edge_id_min E n c (set2 w l r) l cnt Le Hdom W1 Hl0 Hln Ee) as (ie & Re & _).
+  rewrite run_bind, Re in Hr. rewrite run_bind in Hr.
+  destruct (run E (vertices_merge i' i1 i2) c (set2 w l r) cnt) as [[o2 w2] cnt2] eqn:Hm.
+  destruct o2 as [[]|e| |q]; try discriminate Hr.
+  apply run_vertices_merge in Hm as (Hoth & Hne & Heq).
+  assert (Hv : forall d, vertex w' d = vertex w2 d).
+  { eapply (attrs_keep_vertices E); [|exact Hr]. apply writes_in_bind; [apply wi_merge_attributes_a|intros ?; apply wi_merge_attributes_a]. }
+  exists i1, i2, i'. split; [exists L1; auto|]. split; [exists L2; auto|]. split; [exists L'; auto|].
+  split; [|split].
+  - intros d D1 D2 D3. rewrite Hv, (Hoth d D1 D2 D3). apply vertex_set2.
+  - intros Hd. destruct (Hne Hd) as (A & B & C & D). rewrite !vertex_set2 in *. rewrite !Hv. auto.
+  - intros Hd. destruct (Heq Hd) as (A & B). rewrite !vertex_set2 in *. rewrite !Hv. auto.
+Qed.
+
+(* the mirror case: the right dart is 1-free, the left one is not *)
+Theorem two_sew_vertex_data_right E n ks l r c w cnt w' cnt' :
+  dom_ok E n -> wf2 n w -> okd n w l -> okd n w r -> l <> r -> beta w 1 l <> 0 -> beta w 1 r = 0 ->
+  run E (two_sew n ks l r) c w cnt = (Done tt, w', cnt') ->
+  exists i1 i2 i',
+    is_vid n w (beta w 1 l) i1 /\ is_vid n w r i2 /\ is_vid n (set2 w l r) r i' /\ merge_effect w w' i1 i2 i'.
+Proof.
+  intros Hdom W Ol Or Hlr Nl Zr Hr. pose proof Ol as (Hl0 & Hln & Hlu). pose proof Or as (Hr0 & Hrn & Hru).
+  unfold two_sew in Hr. rewrite !run_rdB in Hr by (apply Hdom; [lia|assumption]).
+  rewrite Zr in Hr. change (0 =? 0) with true in Hr.
+  destruct (N.eqb_spec (beta w 1 l) 0) as [Z|_]; [contradiction|].
+  assert (Hbn : beta w 1 l < n) by (apply W; [lia|exact Hln]).
+  destruct (orbit2_spec n w PVertex (beta w 1 l) W eq_refl Nl Hbn) as (L1 & E1 & _).
+  destruct (vertex_id_min E n c w (beta w 1 l) cnt L1 Hdom W Nl Hbn E1) as (i1 & R1 & M1).
+  rewrite run_bind, R1 in Hr.
+  destruct (orbit2_spec n w PVertex r W eq_refl Hr0 Hrn) as (L2 & E2 & _).
+  destruct (vertex_id_min E n c w r cnt L2 Hdom W Hr0 Hrn E2) as (i2 & R2 & M2).
+  rewrite run_bind, R2 in Hr. rewrite run_bind in Hr.
+  destruct (run E (two_link_core l r) c w cnt) as [[o1 w1] cnt1] eqn:Hc.
+  pose proof (triple_two_link_core E n l r c w cnt _ _ _ (conj W (conj Ol (conj Or Hlr))) Hc) as W1.
+  apply run_two_link_core in Hc. destruct o1 as [[]|e| |q]; try discriminate Hr.
+  destruct Hc as (-> & ->).
+  destruct (orbit2_spec n (set2 w l r) PVertex r W1 eq_refl Hr0 Hrn) as (L' & E' & _).
+  destruct (vertex_id_min E n c (set2 w l r) r cnt L' Hdom W1 Hr0 Hrn E') as (i' & R' & M').
+  rewrite run_bind, R' in Hr.
+  destruct (orbit2_spec n (set2 w l r) PEdge l W1 eq_refl Hl0 Hln) as (Le & Ee & _).
+  destruct (edge_id_min E n c (set2 w l r) l cnt Le Hdom W1 Hl0 Hln Ee) as (ie & Re & _).
+  rewrite run_bind, Re in Hr. rewrite run_bind in Hr.
+  destruct (run E (vertices_merge i' i1 i2) c (set2 w l r) cnt) as [[o2 w2] cnt2] eqn:Hm.
+  destruct o2 as [[]|e| |q]; try discriminate Hr.
+  apply run_vertices_merge in Hm as (Hoth & Hne & Heq).
+  assert (Hv : forall d, vertex w' d = vertex w2 d).
+  { eapply (attrs_keep_vertices E); [|exact Hr]. apply writes_in_bind; [apply wi_merge_attributes_a|intros ?; apply wi_merge_attributes_a]. }
+  exists i1, i2, i'. split; [exists L1; auto|]. split; [exists L2; auto|]. split; [exists L'; auto|].
+  split; [|split].
+  - intros d D1 D2 D3. rewrite Hv, (Hoth d D1 D2 D3). apply vertex_set2.
+  - intros Hd. destruct (Hne Hd) as (A & B & C & D). rewrite !vertex_set2 in *. rewrite !Hv. auto.
+  - intros Hd. destruct (Heq Hd) as (A & B). rewrite !vertex_set2 in *. rewrite !Hv. auto.
+Qed.
+
+Lemma run_rdV_plain E d c w cnt o w' cnt' :
+  run E (rdV d) c w cnt = (o, w', cnt') -> w' = w /\ cnt' = cnt.
+Proof. cbn [run rdV]. destruct (e_dom E (XVertex d)); cbn [run]; intros Hr; injection Hr as <- <- <-; auto. Qed.
+
+(* both ends: the two merges happen one after the other; the final coordinates are those of the second lawful merge
+   applied to the result of the first *)
+Theorem two_sew_vertex_data_both E n ks l r c w cnt w' cnt' :
+  dom_ok E n -> wf2 n w -> okd n w l -> okd n w r -> l <> r -> beta w 1 l <> 0 -> beta w 1 r <> 0 ->
+  run E (two_sew n ks l r) c w cnt = (Done tt, w', cnt') ->
+  exists i1 i2 i3 i4 iL iR,
+    is_vid n w l i1 /\ is_vid n w (beta w 1 r) i2 /\ is_vid n w (beta w 1 l) i3 /\ is_vid n w r i4 /\
+    is_vid n (set2 w l r) l iL /\ is_vid n (set2 w l r) r iR /\
+    exists wm, merge_effect w wm i1 i2 iL /\ merge_effect wm w' i3 i4 iR.
+Proof.
+  intros Hdom W Ol Or Hlr Nl Nr Hr. pose proof Ol as (Hl0 & Hln & Hlu). pose proof Or as (Hr0 & Hrn & Hru).
+  unfold two_sew in Hr. rewrite !run_rdB in Hr by (apply Hdom; [lia|assumption]).
+  destruct (N.eqb_spec (beta w 1 l) 0) as [Z|_]; [contradiction|].
+  destruct (N.eqb_spec (beta w 1 r) 0) as [Z|_]; [contradiction|].
+  assert (Hbln : beta w 1 l < n) by (apply W; [lia|exact Hln]).
+  assert (Hbrn : beta w 1 r < n) by (apply W; [lia|exact Hrn]).
+  destruct (orbit2_spec n w PVertex l W eq_refl Hl0 Hln) as (L1 & E1 & _).
+  destruct (vertex_id_min E n c w l cnt L1 Hdom W Hl0 Hln E1) as (i1 & R1 & M1).
+  rewrite run_bind, R1 in Hr.
+  destruct (orbit2_spec n w PVertex (beta w 1 r) W eq_refl Nr Hbrn) as (L2 & E2 & _).
+  destruct (vertex_id_min E n c w (beta w 1 r) cnt L2 Hdom W Nr Hbrn E2) as (i2 & R2 & M2).
+  rewrite run_bind, R2 in Hr.
+  destruct (orbit2_spec n w PVertex (beta w 1 l) W eq_refl Nl Hbln) as (L3 & E3 & _).
+  destruct (vertex_id_min E n c w (beta w 1 l) cnt L3 Hdom W Nl Hbln E3) as (i3 & R3 & M3).
+  rewrite run_bind, R3 in Hr.
+  destruct (orbit2_spec n w PVertex r W eq_refl Hr0 Hrn) as (L4 & E4 & _).
+  destruct (vertex_id_min E n c w r cnt L4 Hdom W Hr0 Hrn E4) as (i4 & R4 & M4).
+  rewrite run_bind, R4 in Hr.
+  (* the four coordinate reads and the orientation test change nothing *)
+  rewrite run_bind in Hr. destruct (run E (rdV i1) c w cnt) as [[oa sa] ka] eqn:Ea.
+  apply run_rdV_plain in Ea as (-> & ->). destruct oa as [lv|e| |q]; try discriminate Hr.
+  rewrite run_bind in Hr. destruct (run E (rdV i2) c w cnt) as [[ob sb] kb] eqn:Eb.
+  apply run_rdV_plain in Eb as (-> & ->). destruct ob as [b1rv|e| |q]; try discriminate Hr.
+  rewrite run_bind in Hr. destruct (run E (rdV i3) c w cnt) as [[oc sc] kc] eqn:Ec.
+  apply run_rdV_plain in Ec as (-> & ->). destruct oc as [b1lv|e| |q]; try discriminate Hr.
+  rewrite run_bind in Hr. destruct (run E (rdV i4) c w cnt) as [[od sd] kd] eqn:Ed.
+  apply run_rdV_plain in Ed as (-> & ->). destruct od as [rv|e| |q]; try discriminate Hr.
+  rewrite run_bind in Hr.
+  match type of Hr with context [run E ?p c w cnt] =>
+    assert (Ho : run E p c w cnt = (Done tt, w, cnt) \/ exists e, run E p c w cnt = (Failed e, w, cnt)) end.
+  { destruct lv as [a|], b1rv as [b|], b1lv as [c0|], rv as [d0|]; try (left; reflexivity).
+    destruct (bad_orient a b c0 d0); [right; eexists; reflexivity|left; reflexivity]. }
+  destruct Ho as [Ho|[e Ho]]; rewrite Ho in Hr; [|discriminate Hr].
+  rewrite run_bind in Hr.
+  destruct (run E (two_link_core l r) c w cnt) as [[o1 w1] cnt1] eqn:Hc.
+  pose proof (triple_two_link_core E n l r c w cnt _ _ _ (conj W (conj Ol (conj Or Hlr))) Hc) as W1.
+  apply run_two_link_core in Hc. destruct o1 as [[]|e| |q]; try discriminate Hr.
+  destruct Hc as (-> & ->).
+  destruct (orbit2_spec n (set2 w l r) PVertex l W1 eq_refl Hl0 Hln) as (LL & EL & _).
+  destruct (vertex_id_min E n c (set2 w l r) l cnt LL Hdom W1 Hl0 Hln EL) as (iL & RL & ML).
+  rewrite run_bind, RL in Hr.
+  destruct (orbit2_spec n (set2 w l r) PVertex r W1 eq_refl Hr0 Hrn) as (LR & ER & _).
+  destruct (vertex_id_min E n c (set2 w l r) r cnt LR Hdom W1 Hr0 Hrn ER) as (iR & RR & MR).
+  rewrite run_bind, RR in Hr.
+  destruct (orbit2_spec n (set2 w l r) PEdge l W1 eq_refl Hl0 Hln) as (Le & Ee & _).
+  destruct (edge_id_min E n c (set2 w l r) l cnt Le Hdom W1 Hl0 Hln Ee) as (ie & Re & _).
+  rewrite run_bind, Re in Hr. rewrite run_bind in Hr.
+  destruct (run E (vertices_merge iL i1 i2) c (set2 w l r) cnt) as [[o2 w2] cnt2] eqn:Hm1.
+  destruct o2 as [[]|e| |q]; try discriminate Hr.
+  apply run_vertices_merge in Hm1 as (Hoth1 & Hne1 & Heq1).
+  rewrite run_bind in Hr.
+  destruct (run E (vertices_merge iR i3 i4) c w2 cnt2) as [[o3 w3] cnt3] eqn:Hm2.
+  destruct o3 as [[]|e| |q]; try discriminate Hr.
+  apply run_vertices_merge in Hm2 as (Hoth2 & Hne2 & Heq2).
+  assert (Hv : forall d, vertex w' d = vertex w3 d).
+  { eapply (attrs_keep_vertices E); [|exact Hr].
+    apply writes_in_bind; [apply wi_merge_attributes_a|intros ?].
+    apply writes_in_bind; [apply wi_merge_attributes_a|intros ?; apply wi_merge_attributes_a]. }
+  exists i1, i2, i3, i4, iL, iR.
+  split; [exists L1; auto|]. split; [exists L2; auto|]. split; [exists L3; auto|]. split; [exists L4; auto|].
+  split; [exists LL; auto|]. split; [exists LR; auto|].
+  exists w2. split.
+  - split; [|split].
+    + intros d D1 D2 D3. rewrite (Hoth1 d D1 D2 D3). apply vertex_set2.
+    + intros Hd. destruct (Hne1 Hd) as (A & B & C & D). rewrite !vertex_set2 in *. auto.
+    + intros Hd. destruct (Heq1 Hd) as (A & B). rewrite !vertex_set2 in *. auto.
+  - split; [|split].
+    + intros d D1 D2 D3. rewrite Hv. apply Hoth2; assumption.
+    + intros Hd. destruct (Hne2 Hd) as (A & B & C & D). rewrite !Hv. auto.
+    + intros Hd. destruct (Heq2 Hd) as (A & B). rewrite !Hv. auto.
+Qed.
+
+(** ** the 2-unsew splits the vertices at the two ends of the edge *)
+Lemma bfs_ext (s1 s2 : N -> list N) : (forall x, s1 x = s2 x) ->
+  forall fuel q m out, bfs s1 fuel q m out = bfs s2 fuel q m out.
+Proof.
+  intros He fuel. induction fuel as [|f IH]; intros q m out; cbn [bfs]; [reflexivity|].
+  destruct q as [|d q']; [reflexivity|]. rewrite He. destruct (fold_left check (s2 d) (q', m)) as [q2 m2]. apply IH.
+Qed.
+Lemma orbit2_topo n w w' p d : topo_eq w w' -> orbit2 n w' p d = orbit2 n w p d.
+Proof.
+  intros [Hb _]. unfold orbit2. destruct (policy_ok p && (d <? n)); [|reflexivity]. unfold orbit. apply bfs_ext.
+  intros x. unfold succ2. destruct p; rewrite ?Hb; try reflexivity. apply map_ext. intros i. apply Hb.
+Qed.
+Lemma is_vid_topo n w w' d i : topo_eq w w' -> is_vid n w' d i -> is_vid n w d i.
+Proof. intros Ht (L & EL & ML). exists L. rewrite <- (orbit2_topo n w w' PVertex d Ht). auto. Qed.
+
+Definition clr2 (w : store) (l r : N) : store := upd (upd w (XBeta 2 l) (VN 0)) (XBeta 2 r) (VN 0).
+Lemma vertex_clr2 w l r d : vertex (clr2 w l r) d = vertex w d.
+Proof. reflexivity. Qed.
+Lemma run_two_unlink_core E l c w cnt o w' cnt' :
+  run E (two_unlink_core l) c w cnt = (o, w', cnt') ->
+  match o with Done _ => w' = clr2 w l (beta w 2 l) /\ cnt' = cnt | _ => True end.
+Proof.
+  unfold two_unlink_core. cbn [run bind rdB wrB]. intros Hr.
+  destruct (e_dom E (XBeta 2 l)); [|injection Hr as <- <- <-; exact I].
+  fold (beta w 2 l) in Hr. destruct (beta w 2 l =? 0); cbn [run bind wrB] in Hr; [injection Hr as <- <- <-; exact I|].
+  destruct (e_dom E (XBeta 2 (beta w 2 l))); injection Hr as <- <- <-; auto.
+Qed.
+
+Definition split_effect (w w' : store) (i0 il ir : N) : Prop :=
+  (forall d, d <> il -> d <> ir -> d <> i0 -> vertex w' d = vertex w d) /\
+  (il <> ir -> exists lv rv, split_of (vertex w i0) = Some (lv, rv) /\ vertex w' il = Some lv /\ vertex w' ir = Some rv /\
+                (i0 <> il -> i0 <> ir -> vertex w' i0 = None)) /\
+  (il = ir -> vertex w' il = vertex w i0 /\ (i0 <> il -> vertex w' i0 = None)).
+
+(* an attribute-only step: same coordinates, same topology *)
+Lemma attrs_step E (p : prog unit) c w cnt w' cnt' :
+  writes_in Sattr p -> run E p c w cnt = (Done tt, w', cnt') ->
+  (forall d, vertex w' d = vertex w d) /\ topo_eq w w'.
+Proof.
+  intros Hw Hr. split.
+  - intros d. unfold vertex. f_equal. eapply writes_in_run; [exact Hw|exact Hr|]. cbn. auto.
+  - apply Sdata_topo. intros v Hv. eapply writes_in_run; [exact Hw|exact Hr|]. destruct v; cbn in *; auto.
+Qed.
+
+(* one end: [l] is 1-free, its opposite dart is not -- the vertex at the origin of [l] is split *)
+Theorem two_unsew_vertex_data_left E n ks l c w cnt w' cnt' :
+  dom_ok E n -> wf2 n w -> okd n w l -> beta w 2 l <> 0 -> beta w 1 l = 0 -> beta w 1 (beta w 2 l) <> 0 ->
+  run E (two_unsew n ks l) c w cnt = (Done tt, w', cnt') ->
+  let r := beta w 2 l in let w1 := clr2 w l r in
+  exists i0 il ir,
+    is_vid n w l i0 /\ is_vid n w1 l il /\ is_vid n w1 (beta w 1 r) ir /\ split_effect w w' i0 il ir.
+Proof.
+  intros Hdom W Ol N2 Zl Nr Hr r w1. pose proof Ol as (Hl0 & Hln & Hlu).
+  assert (Hrn : r < n) by (apply W; [lia|exact Hln]).
+  assert (Hbn : beta w 1 r < n) by (apply W; [lia|exact Hrn]).
+  unfold two_unsew in Hr. rewrite run_rdB in Hr by (apply Hdom; [lia|exact Hln]). fold r in Hr.
+  rewrite run_rdB in Hr by (apply Hdom; [lia|exact Hln]). rewrite run_rdB in Hr by (apply Hdom; [lia|exact Hrn]).
+  rewrite Zl in Hr. change (0 =? 0) with true in Hr.
+  destruct (N.eqb_spec (beta w 1 r) 0) as [Z|_]; [contradiction|].
+  destruct (orbit2_spec n w PEdge l W eq_refl Hl0 Hln) as (Le & Ee & _).
+  destruct (edge_id_min E n c w l cnt Le Hdom W Hl0 Hln Ee) as (ie & Re & _).
+  rewrite run_bind, Re in Hr.
+  destruct (orbit2_spec n w PVertex l W eq_refl Hl0 Hln) as (L0 & E0 & _).
+  destruct (vertex_id_min E n c w l cnt L0 Hdom W Hl0 Hln E0) as (i0 & R0 & M0).
+  rewrite run_bind, R0 in Hr. rewrite run_bind in Hr.
+  destruct (run E (two_unlink_core l) c w cnt) as [[o1 w1'] cnt1] eqn:Hc.
+  pose proof (triple_two_unlink_core E n l c w cnt _ _ _ (conj W Ol) Hc) as W1.
+  apply run_two_unlink_core in Hc. destruct o1 as [[]|e| |q]; try discriminate Hr.
+  destruct Hc as (-> & ->). fold r in Hr, W1. fold w1 in Hr, W1.
+  rewrite run_bind in Hr.
+  destruct (run E (split_attributes ks KEdge l r ie) c w1 cnt) as [[oa wa] cnta] eqn:Ha.
+  destruct oa as [[]|e| |q]; try discriminate Hr.
+  destruct (attrs_step E _ _ _ _ _ _ (wi_split_attributes_a ks KEdge l r ie) Ha) as (Hva & Hta).
+  pose proof (wf2_ext n w1 wa W1 Hta) as Wa.
+  destruct (orbit2_spec n wa PVertex l Wa eq_refl Hl0 Hln) as (Ll & El & _).
+  destruct (vertex_id_min E n c wa l cnta Ll Hdom Wa Hl0 Hln El) as (il & Rl & Ml).
+  rewrite run_bind, Rl in Hr.
+  destruct (orbit2_spec n wa PVertex (beta w 1 r) Wa eq_refl Nr Hbn) as (Lr & Er & _).
+  destruct (vertex_id_min E n c wa (beta w 1 r) cnta Lr Hdom Wa Nr Hbn Er) as (ir & Rr & Mr).
+  rewrite run_bind, Rr in Hr. rewrite run_bind in Hr.
+  destruct (run E (vertices_split il ir i0) c wa cnta) as [[o2 w2] cnt2] eqn:Hs.
+  destruct o2 as [[]|e| |q]; try discriminate Hr.
+  apply run_vertices_split in Hs as (Hoth & Hne & Heq).
+  destruct (attrs_step E _ _ _ _ _ _ (wi_split_attributes_a ks KVertex il ir i0) Hr) as (Hv & _).
+  assert (Hw : forall d, vertex wa d = vertex w d) by (intros d; rewrite Hva; apply vertex_clr2).
+  exists i0, il, ir. split; [exists L0; auto|].
+  split; [apply (is_vid_topo n w1 wa l il Hta); exists Ll; auto|].
+  split; [apply (is_vid_topo n w1 wa _ ir Hta); exists Lr; auto|].
+  split; [|split].
+  - intros d D1 D2 D3. rewrite Hv, (Hoth d D1 D2 D3). apply Hw.
+  - intros Hd. destruct (Hne Hd) as (lv & rv & A & B & C & D). rewrite Hw in A. exists lv, rv. rewrite !Hv. auto.
+  - intros Hd. destruct (Heq Hd) as (A & B). rewrite Hw in A. rewrite !Hv. auto.
+Qed.
+
+(* the mirror case: the opposite dart is 1-free, [l] is not -- the vertex at the origin of the opposite dart is split *)
+Theorem two_unsew_vertex_data_right E n ks l c w cnt w' cnt' :
+  dom_ok E n -> wf2 n w -> okd n w l -> beta w 2 l <> 0 -> beta w 1 l <> 0 -> beta w 1 (beta w 2 l) = 0 ->
+  run E (two_unsew n ks l) c w cnt = (Done tt, w', cnt') ->
+  let r := beta w 2 l in let w1 := clr2 w l r in
+  exists i0 il ir,
+    is_vid n w r i0 /\ is_vid n w1 (beta w 1 l) il /\ is_vid n w1 r ir /\ split_effect w w' i0 il ir.
+Proof.
+  intros Hdom W Ol N2 Nl Zr Hr r w1. pose proof Ol as (Hl0 & Hln & Hlu).
+  assert (Hrn : r < n) by (apply W; [lia|exact Hln]).
+  assert (Hbn : beta w 1 l < n) by (apply W; [lia|exact Hln]).
+  unfold two_unsew in Hr. rewrite run_rdB in Hr by (apply Hdom; [lia|exact Hln]). fold r in Hr.
+  rewrite run_rdB in Hr by (apply Hdom; [lia|exact Hln]). rewrite run_rdB in Hr by (apply Hdom; [lia|exact Hrn]).
+  change (beta w 1 r = 0) in Zr. rewrite Zr in Hr. change (0 =? 0) with true in Hr.
+  destruct (N.eqb_spec (beta w 1 l) 0) as [Z|_]; [contradiction|].
+  destruct (orbit2_spec n w PEdge l W eq_refl Hl0 Hln) as (Le & Ee & _).
+  destruct (edge_id_min E n c w l cnt Le Hdom W Hl0 Hln Ee) as (ie & Re & _).
+  rewrite run_bind, Re in Hr.
+  destruct (orbit2_spec n w PVertex r W eq_refl N2 Hrn) as (L0 & E0 & _).
+  destruct (vertex_id_min E n c w r cnt L0 Hdom W N2 Hrn E0) as (i0 & R0 & M0).
+  rewrite run_bind, R0 in Hr. rewrite run_bind in Hr.
+  destruct (run E (two_unlink_core l) c w cnt) as [[o1 w1'] cnt1] eqn:Hc.
+  pose proof (triple_two_unlink_core E n l c w cnt _ _ _ (conj W Ol) Hc) as W1.
+  apply run_two_unlink_core in Hc. destruct o1 as [[]|e| |q]; try discriminate Hr.
+  destruct Hc as (-> & ->). fold r in Hr, W1. fold w1 in Hr, W1.
+  rewrite run_bind in Hr.
+  destruct (run E (split_attributes ks KEdge l r ie) c w1 cnt) as [[oa wa] cnta] eqn:Ha.
+  destruct oa as [[]|e| |q]; try discriminate Hr.
+  destruct (attrs_step E _ _ _ _ _ _ (wi_split_attributes_a ks KEdge l r ie) Ha) as (Hva & Hta).
+  pose proof (wf2_ext n w1 wa W1 Hta) as Wa.
+  destruct (orbit2_spec n wa PVertex (beta w 1 l) Wa eq_refl Nl Hbn) as (Ll & El & _).
+  destruct (vertex_id_min E n c wa (beta w 1 l) cnta Ll Hdom Wa Nl Hbn El) as (il & Rl & Ml).
+  rewrite run_bind, Rl in Hr.
+  destruct (orbit2_spec n wa PVertex r Wa eq_refl N2 Hrn) as (Lr & Er & _).
+  destruct (vertex_id_min E n c wa r cnta Lr Hdom Wa N2 Hrn Er) as (ir & Rr & Mr).
+  rewrite run_bind, Rr in Hr. rewrite run_bind in Hr.
+  destruct (run E (vertices_split il ir i0) c wa cnta) as [[o2 w2] cnt2] eqn:Hs.
+  destruct o2 as [[]|e| |q]; try discriminate Hr.
+  apply run_vertices_split in Hs as (Hoth & Hne & Heq).
+  destruct (attrs_step E _ _ _ _ _ _ (wi_split_attributes_a ks KVertex il ir i0) Hr) as (Hv & _).
+  assert (Hw : forall d, vertex wa d = vertex w d) by (intros d; rewrite Hva; apply vertex_clr2).
+  exists i0, il, ir. split; [exists L0; auto|].
+  split; [apply (is_vid_topo n w1 wa _ il Hta); exists Ll; auto|].
+  split; [apply (is_vid_topo n w1 wa r ir Hta); exists Lr; auto|].
+  split; [|split].
+  - intros d D1 D2 D3. rewrite Hv, (Hoth d D1 D2 D3). apply Hw.
+  - intros Hd. destruct (Hne Hd) as (lv & rv & A & B & C & D). rewrite Hw in A. exists lv, rv. rewrite !Hv. auto.
+  - intros Hd. destruct (Heq Hd) as (A & B). rewrite Hw in A. rewrite !Hv. auto.
+Qed.
+
+(* both ends: two splits, one after the other *)
+Theorem two_unsew_vertex_data_both E n ks l c w cnt w' cnt' :
+  dom_ok E n -> wf2 n w -> okd n w l -> beta w 2 l <> 0 -> beta w 1 l <> 0 -> beta w 1 (beta w 2 l) <> 0 ->
+  run E (two_unsew n ks l) c w cnt = (Done tt, w', cnt') ->
+  let r := beta w 2 l in let w1 := clr2 w l r in
+  exists j0 jl jr k0 kl kr,
+    is_vid n w l j0 /\ is_vid n w r k0 /\
+    is_vid n w1 l jl /\ is_vid n w1 (beta w 1 r) jr /\ is_vid n w1 (beta w 1 l) kl /\ is_vid n w1 r kr /\
+    exists wm, split_effect w wm j0 jl jr /\ split_effect wm w' k0 kl kr.
+Proof.
+  intros Hdom W Ol N2 Nl Nr Hr r w1. pose proof Ol as (Hl0 & Hln & Hlu).
+  assert (Hrn : r < n) by (apply W; [lia|exact Hln]).
+  assert (Hbln : beta w 1 l < n) by (apply W; [lia|exact Hln]).
+  assert (Hbrn : beta w 1 r < n) by (apply W; [lia|exact Hrn]).
+  unfold two_unsew in Hr. rewrite run_rdB in Hr by (apply Hdom; [lia|exact Hln]). fold r in Hr.
+  rewrite run_rdB in Hr by (apply Hdom; [lia|exact Hln]). rewrite run_rdB in Hr by (apply Hdom; [lia|exact Hrn]).
+  destruct (N.eqb_spec (beta w 1 l) 0) as [Z|_]; [contradiction|].
+  destruct (N.eqb_spec (beta w 1 r) 0) as [Z|_]; [contradiction|].
+  destruct (orbit2_spec n w PEdge l W eq_refl Hl0 Hln) as (Le & Ee & _).
+  destruct (edge_id_min E n c w l cnt Le Hdom W Hl0 Hln Ee) as (ie & Re & _).
+  rewrite run_bind, Re in Hr.
+  destruct (orbit2_spec n w PVertex l W eq_refl Hl0 Hln) as (J0 & EJ0 & _).
+  destruct (vertex_id_min E n c w l cnt J0 Hdom W Hl0 Hln EJ0) as (j0 & RJ0 & MJ0).
+  rewrite run_bind, RJ0 in Hr.
+  destruct (orbit2_spec n w PVertex r W eq_refl N2 Hrn) as (K0 & EK0 & _).
+  destruct (vertex_id_min E n c w r cnt K0 Hdom W N2 Hrn EK0) as (k0 & RK0 & MK0).
+  rewrite run_bind, RK0 in Hr. rewrite run_bind in Hr.
+  destruct (run E (two_unlink_core l) c w cnt) as [[o1 w1'] cnt1] eqn:Hc.
+  pose proof (triple_two_unlink_core E n l c w cnt _ _ _ (conj W Ol) Hc) as W1.
+  apply run_two_unlink_core in Hc. destruct o1 as [[]|e| |q]; try discriminate Hr.
+  destruct Hc as (-> & ->). fold r in Hr, W1. fold w1 in Hr, W1.
+  rewrite run_bind in Hr.
+  destruct (run E (split_attributes ks KEdge l r ie) c w1 cnt) as [[oa wa] cnta] eqn:Ha.
+  destruct oa as [[]|e| |q]; try discriminate Hr.
+  destruct (attrs_step E _ _ _ _ _ _ (wi_split_attributes_a ks KEdge l r ie) Ha) as (Hva & Hta).
+  pose proof (wf2_ext n w1 wa W1 Hta) as Wa.
+  destruct (orbit2_spec n wa PVertex l Wa eq_refl Hl0 Hln) as (JL & EJL & _).
+  destruct (vertex_id_min E n c wa l cnta JL Hdom Wa Hl0 Hln EJL) as (jl & RJL & MJL).
+  rewrite run_bind, RJL in Hr.
+  destruct (orbit2_spec n wa PVertex (beta w 1 r) Wa eq_refl Nr Hbrn) as (JR & EJR & _).
+  destruct (vertex_id_min E n c wa (beta w 1 r) cnta JR Hdom Wa Nr Hbrn EJR) as (jr & RJR & MJR).
+  rewrite run_bind, RJR in Hr.
+  destruct (orbit2_spec n wa PVertex (beta w 1 l) Wa eq_refl Nl Hbln) as (KL & EKL & _).
+  destruct (vertex_id_min E n c wa (beta w 1 l) cnta KL Hdom Wa Nl Hbln EKL) as (kl & RKL & MKL).
+  rewrite run_bind, RKL in Hr.
+  destruct (orbit2_spec n wa PVertex r Wa eq_refl N2 Hrn) as (KR & EKR & _).
+  destruct (vertex_id_min E n c wa r cnta KR Hdom Wa N2 Hrn EKR) as (kr & RKR & MKR).
+  rewrite run_bind, RKR in Hr. rewrite run_bind in Hr.
+  destruct (run E (vertices_split jl jr j0) c wa cnta) as [[o2 w2] cnt2] eqn:Hs1.
+  destruct o2 as [[]|e| |q]; try discriminate Hr.
+  apply run_vertices_split in Hs1 as (Hoth1 & Hne1 & Heq1).
+  rewrite run_bind in Hr.
+  destruct (run E (split_attributes ks KVertex jl jr j0) c w2 cnt2) as [[ob wb] cntb] eqn:Hb.
+  destruct ob as [[]|e| |q]; try discriminate Hr.
+  destruct (attrs_step E _ _ _ _ _ _ (wi_split_attributes_a ks KVertex jl jr j0) Hb) as (Hvb & _).
+  rewrite run_bind in Hr.
+  destruct (run E (vertices_split kl kr k0) c wb cntb) as [[o3 w3] cnt3] eqn:Hs2.
+  destruct o3 as [[]|e| |q]; try discriminate Hr.
+  apply run_vertices_split in Hs2 as (Hoth2 & Hne2 & Heq2).
+  destruct (attrs_step E _ _ _ _ _ _ (wi_split_attributes_a ks KVertex kl kr k0) Hr) as (Hv & _).
+  assert (Hw : forall d, vertex wa d = vertex w d) by (intros d; rewrite Hva; apply vertex_clr2).
+  exists j0, jl, jr, k0, kl, kr.
+  split; [exists J0; auto|]. split; [exists K0; auto|].
+  split; [apply (is_vid_topo n w1 wa l jl Hta); exists JL; auto|].
+  split; [apply (is_vid_topo n w1 wa _ jr Hta); exists JR; auto|].
+  split; [apply (is_vid_topo n w1 wa _ kl Hta); exists KL; auto|].
+  split; [apply (is_vid_topo n w1 wa r kr Hta); exists KR; auto|].
+  exists wb. split.
+  - split; [|split].
+    + intros d D1 D2 D3. rewrite Hvb, (Hoth1 d D1 D2 D3). apply Hw.
+    + intros Hd. destruct (Hne1 Hd) as (lv & rv & A & B & C & D). rewrite Hw in A. exists lv, rv. rewrite !Hvb. auto.
+    + intros Hd. destruct (Heq1 Hd) as (A & B). rewrite Hw in A. rewrite !Hvb. auto.
+  - split; [|split].
+    + intros d D1 D2 D3. rewrite Hv. apply Hoth2; assumption.
+    + intros Hd. destruct (Hne2 Hd) as (lv & rv & A & B & C & D). exists lv, rv. rewrite !Hv. auto.
+    + intros Hd. destruct (Heq2 Hd) as (A & B). rewrite !Hv. auto.
+Qed.
+
 End SewData.
